@@ -107,6 +107,26 @@ def run(rep, tier, seed, selftest, st):
             agree += 1
     rep.flush()
     rep = real_rep
+    # the same cells as the SECOND module of a compilation (pvh::alpha::PREMODULE first, switched on by PVH_PREMODULE): the
+    # first module leaves behind constants, structures, functions and their resolution ids; the rule knows nothing of it
+    obs2_path = os.path.join(common.WORK, "C11-cell-obs2.ndjson")
+    common.pvh(["replay-cells", cases_path, obs2_path], exe_name=mu.EXE,
+               env={"PVH_THREADS": os.environ.get("PVH_THREADS", "12"), "PVH_PREMODULE": "1"})
+    second = common.read_ndjson(obs2_path)
+    if len(second) != len(cases):
+        raise common.ToolError("replay (second module) returned %d observations for %d cells" % (len(second), len(cases)))
+    n2 = 0
+    for case, obs, obs2 in zip(cases, observations, second):
+        p2 = compare(case, obs2)
+        if p2 and not compare(case, obs):
+            n2 += 1
+            for problem, msg in p2:
+                rep.violation("positions/" + problem, key_of(case, problem) + " ^second-module",
+                              {"part": "positions", "case": case, "observed": obs2, "observed_alone": obs, "problem": problem,
+                               "message": msg + " (as the second module of a compilation; alone the cell behaves as the rule says)",
+                               "how": "bin/check C11 --replay <this file>"})
+    log("[replay] positions: the same %d cells as the second module of a compilation: %d differ from the rule only there" % (len(cases), n2))
+    os.remove(obs2_path)
     log("[replay] positions: %d cells compiled by the real compiler (%d must-accept, %d must-reject, %d unconstrained), "
         "%d violations, agreement with the transcribed table %d/%d" %
         (len(cases), counts["A"], counts["R"], counts["U"], len(rep.violations) - before, agree, len(cases)))
